@@ -1,6 +1,10 @@
 (* C13: the extracted compound-file model (coq/theories/Cfb.v).
-   cfb_write <ss> <storages> <streams> <layout>
-        -> <hex of the file>|<valid 0/1>|<known class or ->|<fuel>           (encoder E; model only)
+   cfb_write <ss> <storages> <streams> <layout> [<parents> [<links>]]
+        -> <hex of the file>|<valid 0/1>|<known class or ->|<fuel>|<legal tree 0/1>|<names unique 0/1>
+                                                                              (encoder E; model only)
+      parents : '-' or ','-separated decimals, one per storage then per stream (0 = root storage,
+                j = the j-th storage)
+      links   : '-' or '/'-separated  left,right,child  triples: root entry, storages, streams
       storages: '-' or ';'-separated names (hex of UTF-8)
       streams : '-' or ';'-separated <name hex>:<content hex>
       layout  : nsect|fat ids|difat ids|dir ids|minifat ids|root ids|nmini|chains|slots|pad|size_hi|empty_start
@@ -8,6 +12,7 @@
    cfb <hex of a file> <fuel> <ops>
         -> new=<ok | err:<class> | panic | fuel>[;<answer per op>…]          (model M; both sides)
       ops: ';'-separated  h:<name hex> (has_directory) | g:<name hex> (get_stream) | n (names)
+           | w (model only: the stream Xls::parse_workbook reads, get_stream("Workbook") or else "Book")
       answers: 0/1 | ok:<hex> / err:<class> / panic / fuel | n:<name hex>,…
       (processing stops at a panic and at an error other than notfound)  *)
 open Conv
@@ -36,35 +41,47 @@ let err_class (e : BinNums.coq_N) : string =
   match int_of_n e with
   | 1 -> "io" | 2 -> "ole" | 3 -> "emptyroot" | 4 -> "notfound" | 5 -> "invalid" | _ -> "other"
 
-let parse_container ss storages streams : container =
+let parse_container ss storages streams parents : container =
   { c_ss = n_of_string ss;
     c_storages = (if storages = "-" || storages = "" then [] else List.map name_of (String.split_on_char ';' storages));
     c_streams = (if streams = "-" || streams = "" then [] else
                    List.map (fun e -> match String.split_on_char ':' e with
                        | [n; c] -> (name_of n, bytes_of_hex_shared (if c = "-" then "" else c))
                        | [n] -> (name_of n, [])
-                       | _ -> failwith "bad stream") (String.split_on_char ';' streams)) }
+                       | _ -> failwith "bad stream") (String.split_on_char ';' streams));
+    c_parents = ids parents }
 
-let parse_layout (s : string) : layout =
+let parse_links (s : string) =
+  if s = "" || s = "-" then [] else
+    List.map (fun t -> match String.split_on_char ',' t with
+        | [a; b; c] -> ((n_of_string a, n_of_string b), n_of_string c)
+        | _ -> failwith "bad links") (String.split_on_char '/' s)
+
+let parse_layout (s : string) (links : string) : layout =
   match String.split_on_char '|' s with
   | [nsect; fat; difat; dir; minifat; root; nmini; chains; slots; pad; hi; es] ->
     { l_nsect = n_of_string nsect; l_fat_ids = ids fat; l_difat_ids = ids difat; l_dir_ids = ids dir;
       l_minifat_ids = ids minifat; l_root_ids = ids root; l_nmini = n_of_string nmini;
       l_chains = (if chains = "-" then [] else List.map ids (String.split_on_char '/' chains));
       l_slots = ids slots; l_pad = n_of_string pad; l_size_hi = n_of_string hi;
-      l_empty_start = n_of_string es }
+      l_empty_start = n_of_string es; l_links = parse_links links }
   | _ -> failwith "bad layout"
 
 let run_write (args : string list) : string =
   match args with
-  | [ss; storages; streams; lay] ->
-    let c = parse_container ss storages streams in
-    let l = parse_layout lay in
+  | ss :: storages :: streams :: lay :: rest ->
+    let parents, links = match rest with
+      | [] -> "-", "-" | [p] -> p, "-" | p :: k :: _ -> p, k in
+    let c = parse_container ss storages streams parents in
+    let l = parse_layout lay links in
     let file = cfb_write c l in
     let valid = valid_layoutb c l in
-    let known = "-" in   (* no known class since the fix of bom_name *)
-    Printf.sprintf "%s|%d|%s|%d" (hex_of_bytes_fast file) (if valid then 1 else 0) known
-      (int_of_nat (fuel_for l))
+    let known = match known_C13 c l with
+      | Some k when int_of_n k = 2 -> "shadowed_workbook"
+      | Some _ -> "other" | None -> "-" in
+    let b x = if x then 1 else 0 in
+    Printf.sprintf "%s|%d|%s|%d|%d|%d" (hex_of_bytes_fast file) (b valid) known
+      (int_of_nat (fuel_for l)) (b (legal_treeb c l)) (b (names_uniqueb c))
   | _ -> failwith "bad args"
 
 let run_read (args : string list) : string =
@@ -83,6 +100,12 @@ let run_read (args : string list) : string =
            if !stopped then None else Some (
            if op = "n" then
              "n:" ^ String.concat "," (List.map (fun d -> hex_of_scalars (d_name d)) (directories !c))
+           else if op = "w" then
+             (match workbook_or_book !c !r with
+              | Ok b -> "ok:" ^ hex_of_bytes_fast b
+              | Err e -> "err:" ^ err_class e
+              | Panic -> "panic"
+              | OutOfFuel -> "fuel")
            else
              let name = name_of (String.sub op 2 (String.length op - 2)) in
              match op.[0] with
